@@ -391,3 +391,12 @@ package types
 //@   nosafety
 //@ func NewDecimalFromFloat
 //@   nosafety
+
+// NewEntityUID is its struct literal.
+//@ func NewEntityUID
+//@   inline
+
+// Decoding replaces the value of the variable the receiver points to and never
+// writes into storage the old value references (values are immutable: copies of
+// the old Set/Record/EntityMap share their maps).
+//@ frameshallow C11 (*Set)UnmarshalJSON (*Record)UnmarshalJSON (*EntityMap)UnmarshalJSON (*EntityUID)UnmarshalJSON (*EntityUID)UnmarshalCedar (*IPAddr)UnmarshalJSON (*Datetime)UnmarshalJSON (*Decimal)UnmarshalJSON (*Duration)UnmarshalJSON
